@@ -21,7 +21,10 @@ CLAIMED = {
          "deterministic simulation: stub MC writers + seeded listing permutations/hash seeds + reference model",
          "stub writers' format fidelity (validated against tests/data); docstring numbering rules; sampling, not proof"),
 }
-PENDING = {k: "claimed in DESIGN.md (deterministic simulation); check under construction, not yet registered" for k in ["C03","C04","C11","C12","C13","C14","C18"]}
+CLAIMED["C18"] = ("fault_enumeration", "3", "crash points enumerated: every byte offset of small files (exhaustive per file) and a structured sample of large ones, plus simulated writer crashes with torn chunks, restarts and live reads racing the writers; oracle: the reader raises or returns exactly the model's complete-record prefix",
+         "deterministic simulation with fault injection: truncation-offset enumeration, torn writes, crash/restart, live reader vs simulated writers",
+         "record definition per DESIGN C18; stub writers' format fidelity; hdf5/zlib internals real and not intercepted")
+PENDING = {k: "claimed in DESIGN.md (deterministic simulation); check under construction, not yet registered" for k in ["C03","C04","C11","C12","C13","C14"]}
 def main():
     checks = []
     for pid, (cat, ref, text, tech, note) in sorted(CLAIMED.items()):
